@@ -924,6 +924,38 @@ static void gen(hv::rng &r, const std::string &tier)
         std::string k = typing(r, cap, depth, r.range(50, 400), true);
         emit(std::string("vt ") + VAR[r.below(2)] + " " + std::to_string(cap) + " " + std::to_string(depth) + " 1 " + hx(k));
     }
+    // ---- very deep history rings (history_size is a uint8_t: depths up to 255, index arithmetic near 256):
+    // many distinct short lines, then recalls at every depth.  Added after seeded change C15-history-index-uint8
+    // (ring index computed in 8 bits) was missed: it needs depth >= 129.
+    for (int i = 0; i < (th ? 160 : 24); i++)
+    {
+        static const unsigned DEPTHS[] = {255, 254, 200, 129, 128, 127, 130, 192, 250, 160, 100, 64};
+        unsigned depth = i < 12 ? DEPTHS[i] : (unsigned)r.range(65, 255);
+        unsigned cap = (unsigned)r.range(5, 9);
+        size_t nlines = r.chance(50) ? r.range(1, 70) : r.range(depth > 20 ? depth - 20 : 1, depth + 30);
+        std::string k;
+        size_t entered = 0;
+        auto line = [&]()
+        {
+            // distinct 4-character lines (base-26 counter with a random first letter)
+            size_t v = entered++;
+            k.push_back((char)('a' + r.below(26)));
+            for (int d = 0; d < 3; d++) { k.push_back((char)('a' + v % 26)); v /= 26; }
+            k += "\r";
+        };
+        for (size_t j = 0; j < nlines; j++) line();
+        for (int round = 0; round < 6; round++)
+        {
+            size_t ups = r.chance(30) ? 1 : r.chance(50) ? r.range(1, 8) : r.range(1, (entered < depth ? entered : depth) + 2);
+            for (size_t j = 0; j < ups; j++) k += "\x1b[A";
+            size_t downs = r.below(ups + 2);
+            for (size_t j = 0; j < downs; j++) k += "\x1b[B";
+            if (r.chance(60)) k += "\r";          // accept the recalled line (duplicate-of-last check)
+            else k.push_back('\x03');
+            if (r.chance(50)) line();
+        }
+        emit(std::string("vt ") + VAR[r.below(2)] + " " + std::to_string(cap) + " " + std::to_string(depth) + " 1 " + hx(k));
+    }
 }
 
 int main(int argc, char **argv)
